@@ -148,6 +148,14 @@ func runC12(c *eng.Ctx) {
 		n := 0
 		for _, st := range c.Some(f, eng.StoreField("sql/stmt.Query.Interval"), "statement.Interval = …") {
 			eng.WalkExpr(st.Instr.(*ssa.Store).Val, func(x ssa.Value) bool {
+				if cl, ok := x.(*ssa.Call); ok && len(p.CallsIn(cl, "pkg/timeutil.Truncate")) > 0 && cl.Common().StaticCallee() != nil && cl.Common().StaticCallee().Name() == "Truncate" {
+					// the truncated value itself (kept in a local): aligned by construction; what Truncate reads is its input
+					if eng.DependsOnField(cl.Common().Args[0], "pkg/timeutil.TimeRange.Start", "pkg/timeutil.TimeRange.End") {
+						n++
+						c.Check(true, fmt.Sprintf("measured-after-alignment:truncated[%d]", n), cl, f, "the automatic group-by interval is derived from the ALIGNED range", "")
+					}
+					return false
+				}
 				u, ok := x.(*ssa.UnOp)
 				if !ok {
 					return true
@@ -255,37 +263,52 @@ func runC12(c *eng.Ctx) {
 
 	// ---- 3. completion --------------------------------------------------------------------------------------------------------------
 	c.Rule("GUARD", btcT+".tryClose", func() {
-		f := c.Fn(btcT + ".tryClose")
-		facts := p.MustFacts(f)
-		cl := c.One(f, eng.CallTo("builtin:close"), "close(doneCh)")
-		fs := facts.At(cl.Instr)
-		cas := facts.Find(fs, "true", func(_ string, v ssa.Value) bool {
-			call, ok := v.(*ssa.Call)
-			if !ok {
-				return false
-			}
-			fa, m, _ := eng.AtomicOp(call)
-			return fa != nil && (m == "CompareAndSwap" || m == "CAS") && strings.HasSuffix(eng.FieldKeyOfAddr(fa), ".completed")
-		}, nil)
-		c.Check(len(cas) > 0, "close-once", cl.Instr, f, "the done channel is closed only by the caller that wins the CAS (never twice)", "")
-		// reached only via (expectResults <= 0) or (err != nil)
-		done := eng.EdgesWithFact(f, func(ft eng.Fact) bool {
-			if ft.Op == "le" && ft.Y != nil && strings.HasSuffix(p.Desc(ft.X), ".expectResults") && p.Desc(ft.Y) == "0" {
-				return true
-			}
-			return ft.Op == "ne" && ft.Y != nil && strings.HasSuffix(p.Desc(ft.X), ".err") && p.Desc(ft.Y) == "nil"
-		})
-		_, other := eng.PathExists(eng.PathQuery{Fn: f, Target: func(in ssa.Instruction) bool { return in == cl.Instr }, Edge: eng.ForbidEdges(done)})
-		c.Check(len(done) >= 2 && !other, "close-only-when-finished-or-failed", cl.Instr, f, "completion is signalled only when no answer is outstanding or an error was recorded", "close reachable otherwise")
-		owner(c, "close of baseTaskContext.doneCh", func(p *eng.Prog, in ssa.Instruction) bool {
+		isClose := func(p *eng.Prog, in ssa.Instruction) bool {
 			cc, ok := in.(*ssa.Call)
 			if !ok {
 				return false
 			}
 			b, ok := cc.Common().Value.(*ssa.Builtin)
 			return ok && b.Name() == "close" && eng.DependsOnField(cc.Common().Args[0], btcT+".doneCh")
-		}, []string{btcT + ".tryClose"}, 1)
-		c.Check(p.Locks(f, nil).At(cl.Instr).HasField(btcMu, true), "close-locked", cl.Instr, f, "the decision is taken under the mutex", "")
+		}
+		// every place that closes the done channel (tryClose, or its body written in place in a caller) obeys the same three conditions
+		sites := p.SitesInProgram(isClose)
+		c.Check(len(sites) >= 1, "close-sites-found", nil, nil, "the done channel is closed somewhere", fmt.Sprintf("%d", len(sites)))
+		for _, cl := range sites {
+			f := cl.Fn
+			for f.Parent() != nil {
+				f = f.Parent()
+			}
+			sfx := ""
+			if p.FuncKey(f) != btcT+".tryClose" {
+				sfx = "@" + p.FuncKey(f)
+			}
+			if !strings.HasPrefix(p.FuncKey(f), btcT+".") {
+				c.Check(false, "close-owner"+sfx, cl.Instr, f, "the done channel is closed by the task context itself", "closed in "+p.FuncKey(f))
+				continue
+			}
+			facts := p.MustFacts(f)
+			fs := facts.At(cl.Instr)
+			cas := facts.Find(fs, "true", func(_ string, v ssa.Value) bool {
+				call, ok := v.(*ssa.Call)
+				if !ok {
+					return false
+				}
+				fa, m, _ := eng.AtomicOp(call)
+				return fa != nil && (m == "CompareAndSwap" || m == "CAS") && strings.HasSuffix(eng.FieldKeyOfAddr(fa), ".completed")
+			}, nil)
+			c.Check(len(cas) > 0, "close-once"+sfx, cl.Instr, f, "the done channel is closed only by the caller that wins the CAS (never twice)", "")
+			// reached only via (expectResults <= 0) or (err != nil)
+			done := eng.EdgesWithFact(f, func(ft eng.Fact) bool {
+				if ft.Op == "le" && ft.Y != nil && strings.HasSuffix(p.Desc(ft.X), ".expectResults") && p.Desc(ft.Y) == "0" {
+					return true
+				}
+				return ft.Op == "ne" && ft.Y != nil && strings.HasSuffix(p.Desc(ft.X), ".err") && p.Desc(ft.Y) == "nil"
+			})
+			_, other := eng.PathExists(eng.PathQuery{Fn: f, Target: func(in ssa.Instruction) bool { return in == cl.Instr }, Edge: eng.ForbidEdges(done)})
+			c.Check(len(done) >= 2 && !other, "close-only-when-finished-or-failed"+sfx, cl.Instr, f, "completion is signalled only when no answer is outstanding or an error was recorded", "close reachable otherwise")
+			c.Check(p.Locks(f, nil).At(cl.Instr).HasField(btcMu, true), "close-locked"+sfx, cl.Instr, f, "the decision is taken under the mutex", "")
+		}
 	})
 
 	// ---- 5. writes under the mutex ---------------------------------------------------------------------------------------------------
@@ -579,9 +602,9 @@ func groupingTaskPairing(c *eng.Ctx) {
 			continue
 		}
 		allowed = append(allowed, p.FuncKey(ct))
-		c.Check(p.MustPass(ct, fork, 0), "forked-at-creation:"+t, nil, ct,
+		c.Check(p.MustPass(ct, fork, 2), "forked-at-creation:"+t, nil, ct,
 			"creating the stage object counts one grouping task on every path (Complete() un-counts one for every stage object, whatever Plan() returned)", "")
-		n := len(p.SitesDirect(ct, fork))
+		n := len(p.Sites(ct, fork))
 		c.Check(n == 1, "forked-once:"+t, nil, ct, "exactly one fork per stage object", fmt.Sprintf("%d fork sites", n))
 	}
 	owner(c, "call of ForkGroupingTask", fork, allowed, len(allowed))
